@@ -136,6 +136,12 @@ alg_wrap_wrp(const jose_hook_alg_t *alg, jose_cfg_t *cfg, json_t *jwe,
              json_t *rcp, const json_t *jwk, json_t *cek)
 {
     const jose_hook_alg_t *enc = NULL;
+    /* The buffers are written by the destructors of c and p: declared before
+     * the auto-cleaned IO objects so that they outlive them. */
+    void *ct = NULL;
+    void *pt = NULL;
+    size_t ptl = 0;
+    size_t ctl = 0;
     jose_io_auto_t *e = NULL;
     jose_io_auto_t *d = NULL;
     jose_io_auto_t *c = NULL;
@@ -143,10 +149,6 @@ alg_wrap_wrp(const jose_hook_alg_t *alg, jose_cfg_t *cfg, json_t *jwe,
     json_auto_t *tmp = NULL;
     const char *k = NULL;
     json_t *h = NULL;
-    void *ct = NULL;
-    void *pt = NULL;
-    size_t ptl = 0;
-    size_t ctl = 0;
     size_t kl = 0;
 
     if (!json_object_get(cek, "k") && !jose_jwk_gen(cfg, cek))
@@ -204,14 +206,16 @@ alg_wrap_unw(const jose_hook_alg_t *alg, jose_cfg_t *cfg, const json_t *jwe,
              const json_t *rcp, const json_t *jwk, json_t *cek)
 {
     const jose_hook_alg_t *enc = NULL;
+    /* pt/ptl are written by the destructor of p: declared before the
+     * auto-cleaned IO objects so that they outlive them. */
+    void *pt = NULL;
+    size_t ptl = 0;
     jose_io_auto_t *c = NULL;
     jose_io_auto_t *d = NULL;
     jose_io_auto_t *p = NULL;
     json_auto_t *hdr = NULL;
     json_auto_t *tmp = NULL;
     const char *ct = NULL;
-    void *pt = NULL;
-    size_t ptl = 0;
     size_t ctl = 0;
 
     /* Prepare synthetic JWE */
